@@ -5,4 +5,4 @@ PROP = {"level": "exploration", "disabled": True, "na_reason": "driver self-test
             miri("zz_probe", name="miri-ub", seeds_q=1, seeds_t=1, args={"ub": 1}, timeout={"quick": 300, "thorough": 300}),
             san("tsan", "zz_probe", name="tsan-race", tiers=QT, args={"race": 1}), san("asan", "zz_probe", name="asan-ub", tiers=QT, args={"ub": 1}),
             memcheck("zz_probe", pkg="mon", tiers=QT, scale=100), memcheck("zz_probe", pkg="mon", name="memcheck-ub", tiers=QT, scale=100, args={"ub": 1}),
-            memcheck("zz_probe", pkg="mon", name="memcheck-uninit", tiers=QT, scale=100, args={"uninit": 1})]}
+            native("zz_probe", name="native-segv", args={"segv": 1}), memcheck("zz_probe", pkg="mon", name="memcheck-uninit", tiers=QT, scale=100, args={"uninit": 1})]}
